@@ -893,16 +893,22 @@ Fixpoint globset_range (n : nat) (i : nat) (dep : N) (l : lbuf) : lbuf :=
   | S n' => globset_range n' (S i) dep (lbuf_globset l i dep)
   end.
 
-(* while (i < lbuf_len(xb) && !lbuf_globget(xb, i, xgdep)) i++;  *)
-Fixpoint glob_scan (fuel : nat) (i : nat) (dep : N) (l : lbuf) : nat * lbuf :=
-  match fuel with
-  | O => (i, l)
-  | S f =>
-    if (i <? length (lns l))%nat then
-      let '(l1, m) := lbuf_globget l i dep in
-      if m then (i, l1) else glob_scan f (S i) dep l1
-    else (i, l)
+(* while (i < lbuf_len(xb) && !lbuf_globget(xb, i, xgdep)) i++;
+   as a structural recursion over the lines: the first marked line at or after i gets its mark cleared
+   (lbuf_globget clears what it finds) and its index is returned; the length if there is none *)
+Definition clear_lgl (dep : N) (x : line) : line := set_lgl x (N.clearbit (lgl x) dep).
+Fixpoint scan_l (i : nat) (dep : N) (L : list line) : nat * list line :=
+  match L with
+  | [] => (O, [])
+  | x :: L' =>
+    match i with
+    | S i' => let '(j, L2) := scan_l i' dep L' in (S j, x :: L2)
+    | O => if glob_marked dep x then (O, clear_lgl dep x :: L')
+           else let '(j, L2) := scan_l O dep L' in (S j, x :: L2)
+    end
   end.
+Definition glob_scan (i : nat) (dep : N) (l : lbuf) : nat * lbuf :=
+  let '(j, L2) := scan_l i dep (lns l) in (j, with_lns l L2).
 
 Fixpoint globclear (n : nat) (i : nat) (dep : N) (l : lbuf) : lbuf :=
   match n with
@@ -926,7 +932,7 @@ Fixpoint glob_loop (fuel : nat) (i : nat) (pat body : bytes) (not : bool) (dep :
       if run && negb (r =? 0) then s1
       else
         let i1 := if run then Z.to_nat (Z.min (Z.of_nat i) (xrow s1)) else i in
-        let '(j, l) := glob_scan (S (length (lns (lb s1)))) i1 dep (lb s1) in
+        let '(j, l) := glob_scan i1 dep (lb s1) in
         glob_loop f j pat body not dep (set_lb s1 l)
     end
   end.
